@@ -17,6 +17,7 @@ from __future__ import annotations
 import ast
 import json
 import os
+import re
 import sys
 import warnings
 from concurrent.futures import ProcessPoolExecutor
@@ -532,8 +533,116 @@ def gen_textual_twins() -> List[Variant]:
     return out
 
 
+# ---------------------------------------------------------------------------------
+# Stored patches: the seeded breaking changes (seeded/<ID>, seeded/round*/<ID>: must be reported
+# by the properties recorded as catching them) and the behaviour-preserving refactorings
+# (seeded/benign/<ID>/patch*.diff: every property must stay silent).  The patches are applied in
+# memory to the current files (pure Python, exact context match with a line-offset search); a patch
+# whose context no longer matches is reported as stale, not guessed at.
+# ---------------------------------------------------------------------------------
+def apply_unified(patch_text: str, read=_read) -> Optional[Dict[str, str]]:
+    files: Dict[str, List[tuple]] = {}
+    cur = None
+    hunk = None
+    new_file = set()
+    for line in patch_text.splitlines():
+        if line.startswith("diff --git"):
+            cur = hunk = None
+        elif line.startswith("--- "):
+            if line[4:].strip() == "/dev/null":
+                cur = "<new>"
+        elif line.startswith("+++ "):
+            path = line[4:].strip()
+            path = path[2:] if path.startswith("b/") else path
+            if cur == "<new>":
+                new_file.add(path)
+            cur = path
+            files.setdefault(cur, [])
+            hunk = None
+        elif line.startswith("@@") and cur is not None:
+            m = re.match(r"@@ -(\d+)(?:,(\d+))? \+(\d+)(?:,(\d+))? @@", line)
+            if not m:
+                return None
+            hunk = (int(m.group(1)), [], [])
+            files[cur].append(hunk)
+        elif hunk is not None and cur is not None:
+            if line.startswith("\\"):
+                continue
+            tag, body = (line[0], line[1:]) if line else (" ", "")
+            if tag == " ":
+                hunk[1].append(body)
+                hunk[2].append(body)
+            elif tag == "-":
+                hunk[1].append(body)
+            elif tag == "+":
+                hunk[2].append(body)
+    out = {}
+    for rel, hunks in files.items():
+        if rel in new_file:
+            out[rel] = "\n".join(l for h in hunks for l in h[2]) + "\n"
+            continue
+        try:
+            text = read(rel)
+        except OSError:
+            return None
+        lines = text.split("\n")
+        shift = 0
+        for start, olds, news in hunks:
+            want = start - 1 + shift
+            pos = None
+            for d in sorted(range(-60, 61), key=abs):
+                i = want + d
+                if 0 <= i <= len(lines) - len(olds) and lines[i : i + len(olds)] == olds:
+                    pos = i
+                    break
+            if pos is None:
+                return None
+            lines[pos : pos + len(olds)] = news
+            shift += len(news) - len(olds) + (pos - want)
+        out[rel] = "\n".join(lines)
+    return out
+
+
+def gen_patch_variants() -> List[Variant]:
+    import glob
+
+    out = []
+    root = os.path.join(HERE, "seeded")
+    for meta_path in sorted(glob.glob(os.path.join(root, "*", "meta.json")) + glob.glob(os.path.join(root, "round*", "*", "meta.json"))):
+        d = os.path.dirname(meta_path)
+        if os.path.basename(os.path.dirname(d)) == "benign" or os.path.basename(d) == "benign":
+            continue
+        pf = os.path.join(d, "patch.diff")
+        if not os.path.exists(pf):
+            continue
+        try:
+            meta = json.load(open(meta_path))
+        except ValueError:
+            continue
+        props = meta.get("caught_by") or [meta.get("property")]
+        name = os.path.relpath(d, root).replace(os.sep, "-")
+        ov = apply_unified(open(pf).read())
+        for prop in props:
+            vid = f"{prop}:seeded-patch:{name}"
+            if ov is None:
+                out.append(Variant(prop, vid, "stale", {}, f"stored patch {name} no longer applies"))
+            else:
+                out.append(Variant(prop, vid, "mutant", ov, f"seeded breaking change {name} ({meta.get('property')})"))
+    all_props = [f"C{i:02d}" for i in range(1, 21)]
+    for pf in sorted(glob.glob(os.path.join(root, "benign", "*", "patch*.diff"))):
+        name = os.path.basename(os.path.dirname(pf)) + "-" + os.path.basename(pf)[:-5]
+        ov = apply_unified(open(pf).read())
+        for prop in all_props:
+            vid = f"{prop}:benign-patch:{name}"
+            if ov is None:
+                out.append(Variant(prop, vid, "stale", {}, f"stored refactoring {name} no longer applies"))
+            else:
+                out.append(Variant(prop, vid, "twin", ov, f"behaviour-preserving refactoring {name}"))
+    return out
+
+
 def all_variants() -> List[Variant]:
-    return gen_textual() + gen_textual_twins() + gen_generic()
+    return gen_textual() + gen_textual_twins() + gen_generic() + gen_patch_variants()
 
 
 # ---------------------------------------------------------------------------------
